@@ -6,19 +6,26 @@ from common import log
 PROP = "C02"
 COMMITTEES = {
     "W4": ("MC_Just_W4", "3,1,1,1"),
+    "W4n": ("MC_Just_W4", "3,1n,1,1n"),   # same cases; two members not leader-eligible (thresholds are over the TOTAL weight)
     "U6": ("MC_Just_U6", "1,1,1,1,1,1"),
     "W5b": ("MC_Just_W5b", "2,2,2,2,2,1"),
 }
 
 
+_CACHE = {}
+
+
 def _gen(name):
     cfg, weights = COMMITTEES[name]
+    if cfg in _CACHE:
+        return _CACHE[cfg], weights
     r = common.tlc("bft", "MC_Just", cfg=cfg + ".cfg", workers=1, timeout=1200, xmx="8g")
     if not r.ok:
         raise common.ToolError("MC_Just failed:\n" + r.out[-1500:])
     cases = r.printed("CASE")
     if not cases:
         raise common.ToolError("MC_Just printed no cases")
+    _CACHE[cfg] = cases
     return cases, weights
 
 
@@ -30,7 +37,7 @@ def run_table(tier):
     if not r.ok:
         raise common.ToolError("ReproposalSound fails on Justification.tla (specification-level):\n" + r.out[-1500:])
     total, fails, samples = 0, [], []
-    names = ["W4", "U6"] if tier == "quick" else ["W4", "U6", "W5b"]
+    names = ["W4", "W4n", "U6"] if tier == "quick" else ["W4", "W4n", "U6", "W5b"]
     for name in names:
         cases, weights = _gen(name)
         cp = os.path.join(d, f"cases_{name}.ndjson")
